@@ -81,6 +81,25 @@ fn check_pair<F: Col + Into<T> + Into<Gray8>, T: Col + Into<F>>(c: &Case, obs: &
                         }
                     }
                 }
+                // luma band: the exact value lies between the library's 8-bit weights 77/150/29 (/256) and BT.601's
+                // 0.299/0.587/0.114; sources narrower than 8 bits are widened to 8 bits first and targets other than
+                // Gray8 are reached through Gray8, each of which may add half an 8-bit step
+                if fk.is_rgb() {
+                    let ch: [f64; 3] = [s[0] as f64 / fm[0] as f64, s[1] as f64 / fm[1] as f64, s[2] as f64 / fm[2] as f64];
+                    let l1 = (77.0 * ch[0] + 150.0 * ch[1] + 29.0 * ch[2]) / 256.0 * 255.0;
+                    let l2 = (0.299 * ch[0] + 0.587 * ch[1] + 0.114 * ch[2]) * 255.0;
+                    let (lo, hi) = (l1.min(l2), l1.max(l2));
+                    let slack = if fm.iter().any(|m| *m != 255) { 0.5 } else { 0.0 } + 1e-9;
+                    if kind == "rgb->gray" {
+                        let tol = 0.5 * 255.0 / tm[0] as f64 + slack + if tm[0] != 255 { 0.5 } else { 0.0 };
+                        let got = t[0] as f64 * 255.0 / tm[0] as f64;
+                        if got < lo - tol || got > hi + tol {
+                            obs.fail("luma-is-nearest-weighted-sum", format!("{:?} -> {:?}: luma {:.3}..{:.3} (of 255), got {:.3}, tolerance {:.3}", src, dst, lo, hi, got, tol));
+                        }
+                    } else if (t[0] != 0 && hi < 127.5 - slack) || (t[0] == 0 && lo >= 128.0 + slack) {
+                        obs.fail("binary-on-iff-upper-half-of-luma", format!("{:?}: luma {:.3}..{:.3} (of 255) -> {:?}", src, lo, hi, dst));
+                    }
+                }
                 if kind == "rgb->binary" {
                     // On exactly for the upper half of the luma range (luma as the public RGB -> Gray8 conversion defines it)
                     let g8: Gray8 = src.into();
@@ -208,8 +227,8 @@ fn main() {
     egverif::fw::main(Prop {
         id: "C13",
         level: "exploration",
-        rule: "complete enumeration: a case is one chunk of source values of one ordered pair of colour types (a pair without a conversion would not compile); the counter conversions gives the number of individual source values; per value: nearest scaled value per channel (unique because all maxima are odd), widening-and-back identity, RGB->gray/binary monotone in each channel, binary thresholds, binary->x extremes; per pair: black->black, white->white, gray->rgb->gray identity",
-        assumptions: &["'luma' for RGB->BinaryColor is what the public RGB->Gray8 conversion returns", "channel maxima come from the harness's independent width table"],
+        rule: "complete enumeration: a case is one chunk of source values of one ordered pair of colour types (a pair without a conversion would not compile); the counter conversions gives the number of individual source values; per value: nearest scaled value per channel (unique because all maxima are odd), widening-and-back identity, RGB->gray/binary monotone in each channel, RGB->gray within half a target step (plus half an 8-bit step per intermediate 8-bit rounding) of the luma band spanned by the 77/150/29 (/256) and 0.299/0.587/0.114 weights, binary thresholds (against the same band and against the public Gray8 conversion), binary->x extremes; per pair: black->black, white->white, gray->rgb->gray identity",
+        assumptions: &["'luma' is any value between the weighted sums with the library's 8-bit weights and with the BT.601 weights; RGB->BinaryColor must also agree with the public RGB->Gray8 conversion", "channel maxima come from the harness's independent width table"],
         parts: |_| vec![PartSpec::new("all", "verif")],
         run_part,
         required_classes: |_| vec!["rgb->rgb", "gray->gray", "gray->rgb", "rgb->gray", "rgb->binary", "gray->binary", "binary->x", "gray->rgb->gray-identity"],
